@@ -24,5 +24,20 @@ Theorem C12_wallclock_arithmetic_refuted : exists wall dt off off_at_start,
   start_wallclock wall dt off_at_start <> t_start (coords_single (instant wall off) dt).
 Proof. exact wallclock_arithmetic_refuted. Qed.
 
+(* host independence: the coordinates are a function of the recorded instant alone - the same instant written in another
+   zone (wall clock and UTC offset both moved by h) gives the same timestart, time and timeend *)
+Theorem C12_same_instant_any_zone wall off h dt dtfw dtbw :
+  coords_single (instant (wall + h) (off + h)) dt = coords_single (instant wall off) dt /\
+  coords_double (instant (wall + h) (off + h)) dtfw dtbw = coords_double (instant wall off) dtfw dtbw.
+Proof. exact (same_instant_any_zone wall off h dt dtfw dtbw). Qed.
+(* back-to-back measurements tile the time axis and their time coordinates increase strictly *)
+Theorem C12_consecutive_measurements_tile stamp dt dtfw dtbw : 0 < dt -> 0 < dtfw + dtbw ->
+  t_start (coords_single (stamp + dt) dt) = t_end (coords_single stamp dt) /\
+  t_time (coords_single stamp dt) < t_time (coords_single (stamp + dt) dt) /\
+  t_start (coords_double (stamp + dtfw + dtbw) dtfw dtbw) = t_end (coords_double stamp dtfw dtbw) /\
+  t_time (coords_double stamp dtfw dtbw) < t_time (coords_double (stamp + dtfw + dtbw) dtfw dtbw).
+Proof. exact (consecutive_tile stamp dt dtfw dtbw). Qed.
+
 Print Assumptions C12_single_ended_interval. Print Assumptions C12_double_ended_interval.
 Print Assumptions C12_wallclock_arithmetic_partial. Print Assumptions C12_wallclock_arithmetic_refuted.
+Print Assumptions C12_same_instant_any_zone. Print Assumptions C12_consecutive_measurements_tile.
